@@ -1,5 +1,8 @@
 ENGINES = [
-    {"name": "symx", "path": "vt/symx.py", "serves_properties": ["C04", "C05", "C06", "C07"],
+    {"name": "csym", "path": "vt/csym.py", "serves_properties": ["C01", "C03"],
+     "kind_free_text": "symbolic interpreter of traits/ctraits.c over clang's JSON AST (regenerated from the current source on every run), "
+                       "CPython API contracts in vt/capi.py, shared path condition with symx; memory-safety assertions on every path"},
+    {"name": "symx", "path": "vt/symx.py", "serves_properties": ["C01", "C03", "C04", "C05", "C06", "C07"],
      "kind_free_text": "symbolic execution of the real Python code on z3-backed proxies (DFS over decision prefixes by re-execution), "
                        "environment models for built-ins (vt/envmodels.py), concrete replay of every counterexample and one witness per path"},
 ]
@@ -45,4 +48,29 @@ CHECKS["C04"] = dict(
     note="Trusted: z3, environment models (self-tested), the compiled Int validator and trait_items_event run concretely. Stubs: "
          "List.full_info (message text), ListModel/MSlice. Bounds: n<=3 (5), m<=2 (3), s<=2 (3). Outside: inner traits other than "
          "Int/Str/List/Python-validated, sort(key=raising), spurious rejections (the statement does not forbid them).")
+CHECKS["C03"] = dict(
+    category="translation_validation", engine="csym+symx",
+    text="Translation validation of the two implementations of every fast-validated trait type: the C validator selected by the real "
+         "_trait_set_validate is interpreted from clang's AST of the current ctraits.c, the real Python validate() runs natively, both on one "
+         "abstract value (z3 Int / Float64 payloads incl. NaN/inf/-0.0, int/float/complex subclasses, objects with nondeterministic "
+         "__index__/__float__/__complex__, numpy scalars, None, strings, tuples, instances, classes, callables). Per path z3 decides "
+         "accept-agreement, payload equality and 'Python TraitError => fast TraitError'; 40 configurations incl. symbolic float Range bounds "
+         "and exclude flags, Enum, Map, Tuple, Instance/adapt modes, This, Callable, casts, compound nestings of <= 3 alternatives.",
+    design_ref="DESIGN.md section 4 C03", technique="symbolic interpretation of the C source (clang AST) and of the Python code with z3; counterexamples replayed on the compiled extension",
+    note="Trusted: z3; the CPython API contracts (vt/capi.py) and built-in shadows (vt/pymodel.py), validated by replaying one witness per path "
+         "against the compiled extension and the real validate(). Bounds: int->double for |i|<2**63 or beyond the double range; int(float) for "
+         "|f|<2**63; bytes(n) n<2**16; tuple arity<=3; concrete strings. Outside: Array, Date/Time, File, regex traits, allocation failure.")
+CHECKS["C01"] = dict(
+    engine="csym+symx",
+    text="Bounded model checking of the real assignment path: has_traits_setattro -> setattr_trait -> validator -> __dict__ store / "
+         "raise_trait_error is interpreted from the AST of ctraits.c on a real HasTraits object (its __dict__ shared with the interpreter), "
+         "Python validators (int Range, String, Union, Type, ...) run natively on proxies. Oracle = reference predicate Dom_T written from the "
+         "documentation: stored value is the documented conversion and inside the domain (Range bounds/exclusivity, String length with "
+         "symbolic minlen/maxlen, Enum/Map membership + mapped shadow, tuple shape, instance class, allow_none), no spurious rejection, "
+         "rejection = TraitError naming the attribute or the value's own protocol exception, rejected assignment leaves __dict__ and handler "
+         "log unchanged. 26 configurations x value kinds.",
+    design_ref="DESIGN.md section 4 C01", technique="symbolic interpretation of the C source (clang AST) and of the Python code with z3; counterexamples replayed on the compiled extension",
+    note="Trusted: z3, API contracts, Dom_T reference predicates (props/c01.py). trait_set and constructor-keyword entry points are exercised "
+         "only in the concrete witness replays (they reach the same has_traits_setattro). Outside: Array traits (numpy C boundary), "
+         "Date/Time/UUID/File, symbolic strings, allocation failure.")
 NOT_APPLICABLE = {p: NOT_BUILT for p in ["C%02d" % i for i in range(1, 21)]}
